@@ -524,6 +524,7 @@ def prefix_scenario(head):
     limit = {"Dense": [L, L, L], "head": [16, 16, 16]}
     hm = Obj(cls, {"limit": limit, "groups": {}, "quantization_config": QCONFIG})
     hp = HP(ip)
+    s.replay = {"head": head}
     r = run_call(ip, ip.getattr(hm, "_get_quantizer"), [hp.obj(), "pre_head_" + head, "pre_head", "Dense"], {})
     s.claim("no_raise", r[0] == "return")
     if r[0] != "return":
@@ -564,7 +565,7 @@ def cases(tier):
                     replay_kind="c20_getq", assumptions=ASSUME))
   for head in ("kernel", "bias", "activation"):
     out.append(Case(PROP, AQ + "._get_quantizer", "prefix_only_" + head, prefix_scenario(head), bounds=bounds,
-                    replay_kind=None, assumptions=ASSUME))
+                    replay_kind="c20_prefix", assumptions=ASSUME))
   for form in ("scalar", "list3", "list4"):
     out.append(Case(PROP, AQ + "._adjust_limit", form, adjust_scenario(form), bounds=bounds, replay_kind=None,
                     assumptions=ASSUME))
